@@ -30,7 +30,7 @@ Proof. unfold set_node. destruct (find _ (nname s)) as [[u' n']|].
 Theorem compile_ext p un args_of own_of fbuild s0 : forall fuel s g prefix vi mg s' rq fs,
   compile p un args_of own_of fbuild fuel s g prefix vi = inl (mg, s', rq, fs) -> Ext s0 s -> Ext s0 s'.
 Proof.
-  apply (CompilePres.compile_inv (Ext s0)).
+  apply (CompilePres.compile_inv_leaf (Ext s0)).
   - intros s v n s' H Hs. eapply Ext_trans; [exact Hs|eapply set_var_ext; exact H].
   - intros s u n s' H Hs. eapply Ext_trans; [exact Hs|eapply set_node_ext; exact H].
   - intros s c H. exact H.
@@ -38,7 +38,7 @@ Proof.
   - intros s r H _. exact H.
 Qed.
 Lemma scope_update_ext p un s u prefix s' : scope_update p un s u prefix = inl s' -> Ext s s'.
-Proof. intros H. refine (CompilePres.scope_update_inv (Ext s) _ _ _ _ p un s u prefix s' H (Ext_refl s)).
+Proof. intros H. refine (CompilePres.scope_update_inv_leaf (Ext s) _ _ _ _ p un s u prefix s' H (Ext_refl s)).
   - intros s1 v n s2 H1 Hs. eapply Ext_trans; [exact Hs|eapply set_var_ext; exact H1].
   - intros s1 w n s2 H1 Hs. eapply Ext_trans; [exact Hs|eapply set_node_ext; exact H1].
   - intros s1 c H1. exact H1.
@@ -133,7 +133,7 @@ Proof.
   apply bind_ok in H. destruct H as [[[[[ms0 s3] rq3] fs0] sfs] [H2 H]].
   assert (He : Ext s1 s3).
   { change (CompilePres.acc_inv (Ext s1) (ms0, s3, rq3, fs0, sfs)).
-    eapply (CompilePres.own_fold_inv (Ext s1)); [| | | | | |exact H2|apply Ext_refl].
+    eapply (CompilePres.own_fold_inv_leaf (Ext s1)); [| | | | | |exact H2|apply Ext_refl].
     - intros s0 v n s0' H0 Hs0. eapply Ext_trans; [exact Hs0|eapply set_var_ext; exact H0].
     - intros s0 u n s0' H0 Hs0. eapply Ext_trans; [exact Hs0|eapply set_node_ext; exact H0].
     - intros s0 c H0. exact H0.
@@ -219,3 +219,207 @@ Definition inputs_wf_b (p : prog) (r : request) : bool :=
 Lemma inputs_wf_b_sound p r inputs : inputs_wf_b p r = true -> all_vars (r_inputs r) = Some inputs ->
   forall kv, In kv inputs -> vidx (snd kv) < List.length (node_outs p (vnode (snd kv))).
 Proof. unfold inputs_wf_b. intros H Hi. rewrite Hi in H. rewrite forallb_forall in H. intros kv Hk. specialize (H kv Hk). now apply Nat.ltb_lt in H. Qed.
+
+(* ---------- a Var that has a name is only ever bound to that name ---------- *)
+Section Bound.
+Variables (p : prog) (un : names).
+Definition BoundRight (s : scope) : Prop :=
+  forall v m n, lookup var_eqb v (vname s) = Some m -> var_name p un v = Some n -> m = n.
+
+Lemma lookup_snoc {A B} (eqb : A -> A -> bool) (Heq : forall a b, reflect (a = b) (eqb a b)) (l : list (A * B)) k x k' y :
+  lookup eqb k' (l ++ [(k, x)]) = Some y -> lookup eqb k' l = Some y \/ (lookup eqb k' l = None /\ k' = k /\ y = x).
+Proof. destruct (lookup eqb k' l) eqn:El.
+  - rewrite (lookup_app_some eqb _ _ _ _ El). intros H; inversion H; now left.
+  - rewrite (lookup_app_none eqb _ _ _ El). unfold lookup. cbn. destruct (Heq k' k) as [->|]; [|discriminate]. cbn. intros H; inversion H. right; auto. Qed.
+
+Lemma set_var_bound s v n s' : set_var s v n = inl s' -> var_name p un v = Some n \/ var_name p un v = None -> BoundRight s -> BoundRight s'.
+Proof. unfold set_var. intros H Hn Hb. destruct (find _ (vname s)) as [[v' n']|].
+  - destruct (var_eqb v v'); [|discriminate]. inversion H; subst. exact Hb.
+  - destruct (mem String.eqb n (reserved s)); [discriminate|]. destruct (lookup var_eqb v (vname s)); [discriminate|].
+    inversion H; subst. intros w m k Hw Hk. cbn in Hw. apply (lookup_snoc var_eqb var_eqb_spec) in Hw. destruct Hw as [Hw|(_ & -> & ->)].
+    + eapply Hb; eauto.
+    + destruct Hn as [Hn|Hn]; congruence. Qed.
+
+Lemma scope_update_bound s u prefix s' : scope_update p un s u prefix = inl s' -> BoundRight s -> BoundRight s'.
+Proof.
+  unfold scope_update. destruct (enum (ncnt s) (prefix ++ node_ident p u))%string as [nm nc]. intros H Hs.
+  apply bind_ok in H. destruct H as [s1 [H1 H2]].
+  assert (Hs1 : BoundRight s1).
+  { unfold set_node in H1. destruct (find _ (nname (with_ncnt s nc))) as [[u' n']|].
+    - destruct (nref_eqb u u'); [|discriminate]. inversion H1; subst. exact Hs.
+    - destruct (lookup nref_eqb u (nname (with_ncnt s nc))); [discriminate|]. inversion H1; subst. exact Hs. }
+  revert H2 Hs1. apply foldM_inv. intros s2 [k fld] s3 Hf Hs2. cbn [fst snd] in Hf.
+  destruct (var_name p un (V u k)) as [n|] eqn:En.
+  - eapply set_var_bound; [exact Hf|left; exact En|exact Hs2].
+  - destruct (maybe_enum (vcnt s2) (nm ++ "_" ++ fld))%string as [n vc]. eapply set_var_bound; [exact Hf|right; exact En|exact Hs2].
+Qed.
+
+Theorem compile_bound args_of own_of fbuild : forall fuel s g prefix vi mg s' rq fs,
+  compile p un args_of own_of fbuild fuel s g prefix vi = inl (mg, s', rq, fs) -> BoundRight s -> BoundRight s'.
+Proof. apply (CompilePres.compile_inv BoundRight p un).
+  - exact scope_update_bound.
+  - intros s c H. exact H.
+  - intros s r H _. exact H. Qed.
+
+(* every name in the inputs and outputs of the GraphProto compiled for g is the user name of the Var it stands for, when it has one *)
+Theorem compile_io_names args_of own_of fbuild fuel s g prefix vi ai ms ro s' rq fs :
+  compile p un args_of own_of fbuild fuel s g prefix vi = inl (MGraph ai ms ro, s', rq, fs) -> BoundRight s ->
+  Forall2 (fun a x => forall n, var_name p un a = Some n -> fst x = n) (args_of g) ai /\
+  Forall2 (fun k x => forall n, var_name p un (V (NIntro g) k) = Some n -> fst x = n) (seqn 0 (List.length (gres (getg p g)))) ro.
+Proof.
+  intros H Hs. pose proof (compile_bound _ _ _ _ _ _ _ _ _ _ _ _ H Hs) as Hb.
+  destruct fuel as [|f]; [discriminate|]. cbn [Build.compile] in H.
+  apply bind_ok in H. destruct H as [s1 [_ H]]. apply bind_ok in H. destruct H as [[[[[ms0 s3] rq3] fs0] sfs] [_ H]].
+  destruct (Nat.eqb (List.length (gres (getg p g))) 0); [discriminate H|].
+  apply bind_ok in H. destruct H as [ai0 [Hai H]]. apply bind_ok in H. destruct H as [ro0 [Hro H]]. inversion H; subst.
+  assert (Hvi : forall v x, value_info p vi s' v = inl x -> forall n, var_name p un v = Some n -> fst x = n).
+  { intros v x Hx n Hn. unfold value_info in Hx. apply bind_ok in Hx. destruct Hx as [nm [Hv Hx]]. unfold vlook in Hv.
+    destruct (lookup var_eqb v (vname s')) as [m|] eqn:El; [|discriminate]. inversion Hv; subst nm. pose proof (Hb v m n El Hn) as E. subst m.
+    destruct vi as [c|]; [|inversion Hx; reflexivity].
+    destruct (vty p v) as [t|]; [|discriminate]. destruct (c && negb (tconcrete t))%bool; [discriminate|]. inversion Hx; reflexivity. }
+  split.
+  - eapply mapM_Forall2; [|exact Hai]. intros a x _ Hx. now apply Hvi.
+  - assert (Hro' : mapM (fun k => value_info p vi s' (V (NIntro g) k)) (seqn 0 (List.length (gres (getg p g)))) = inl ro).
+    { revert Hro. generalize (seqn 0 (List.length (gres (getg p g)))) as l. clear. intros l. revert ro. induction l as [|k t IH]; intros ro H; cbn in *; [exact H|].
+      destruct (value_info p vi s' (V (NIntro g) k)); [|exact H]. cbn in *. destruct (mapM (value_info p vi s') (map (V (NIntro g)) t)) eqn:E.
+      - rewrite (IH _ eq_refl). exact H.
+      - cbn in H. discriminate. }
+    eapply mapM_Forall2; [|exact Hro']. intros k x _ Hx. now apply Hvi.
+Qed.
+End Bound.
+
+(* ---------- the public build: outputs ---------- *)
+Lemma set_assoc_keys {A B} (eqb : A -> A -> bool) (Heq : forall a b, reflect (a = b) (eqb a b)) (k : A) (v : B) l x :
+  In x (map fst (set_assoc eqb k v l)) -> x = k \/ In x (map fst l).
+Proof. unfold set_assoc. destruct (mem eqb k (map fst l)).
+  - rewrite map_map. intros H. apply in_map_iff in H. destruct H as [[a b] [E Hin]]. cbn in E. destruct (eqb k a); cbn in E; subst.
+    + now left.
+    + right. apply in_map_iff. exists (x, b). auto.
+  - rewrite map_app. intros H. apply in_app_or in H. destruct H as [H|[H|[]]]; [now right|left; now symmetry]. Qed.
+Lemma user_names_keys inputs x : In x (map fst (user_names inputs)) -> In x (map snd inputs).
+Proof. unfold user_names. assert (H : forall acc, In x (map fst (fold_left (fun acc kv => set_assoc var_eqb (snd kv) (fst kv) acc) inputs acc)) ->
+                                          In x (map fst acc) \/ In x (map snd inputs)).
+  { induction inputs as [|[k v] t IH]; cbn; intros acc Hx; [now left|]. destruct (IH _ Hx) as [H|H]; [|right; now right].
+    apply (set_assoc_keys var_eqb var_eqb_spec) in H. destruct H as [->|H]; [right; now left|now left]. }
+  intros Hx. destruct (H [] Hx) as [[]|Hr]. exact Hr. Qed.
+Lemma lookup_notin_none {A B} (eqb : A -> A -> bool) (Heq : forall a b, reflect (a = b) (eqb a b)) k (l : list (A * B)) :
+  ~ In k (map fst l) -> lookup eqb k l = None.
+Proof. unfold lookup. induction l as [|[a b] t IH]; cbn; intros H; [reflexivity|]. destruct (Heq k a) as [->|]; [exfalso; apply H; now left|].
+  apply IH. intros Hc. apply H. now right. Qed.
+Lemma lookup_outmap g (l : list (String.string * var)) : forall j i kv, nth_error l i = Some kv ->
+  lookup var_eqb (V (NIntro g) (j + i))
+    (map (fun ik : nat * (String.string * var) => (V (NIntro g) (fst ik), fst (snd ik))) (combine (seqn j (List.length l)) l)) = Some (fst kv).
+Proof. induction l as [|a t IH]; intros j i kv H; [destruct i; discriminate|]. cbn [List.length seqn combine map]. unfold lookup. cbn [find fst].
+  destruct i as [|i].
+  - cbn in H. inversion H; subst. rewrite Nat.add_0_r. destruct (var_eqb_spec (V (NIntro g) j) (V (NIntro g) j)); [reflexivity|congruence].
+  - cbn in H. destruct (var_eqb_spec (V (NIntro g) (j + S i)) (V (NIntro g) j)) as [E|_]; [inversion E; lia|].
+    replace (j + S i) with (S j + i) by lia. exact (IH (S j) i kv H). Qed.
+
+Lemma names_from_seqn {B} (l : list (String.string * var)) : forall (ro : list (String.string * B)) j,
+  Forall2 (fun k x => forall i kv, k = j + i -> nth_error l i = Some kv -> fst x = fst kv) (seqn j (List.length l)) ro ->
+  map fst ro = map fst l.
+Proof. induction l as [|a t IH]; intros ro j H; cbn in *; [inversion H; reflexivity|].
+  inversion H as [|k x ks xs Hx Hxs]; subst. cbn. f_equal.
+  - apply (Hx 0 a); [lia|reflexivity].
+  - apply (IH xs (S j)). eapply Forall2_weaken; [|exact Hxs]. intros k y Hy i kv Hk Hn. apply (Hy (S i) kv); [lia|exact Hn]. Qed.
+
+(* The graph outputs of a returned model carry exactly the requested output names, in the requested order. *)
+Theorem build_public_outputs p r m inputs outputs :
+  build_public p r = inl m -> all_vars (r_inputs r) = Some inputs -> all_vars (r_outputs r) = Some outputs ->
+  match mmain m with MGraph _ _ go_ => map fst go_ = map fst outputs end.
+Proof.
+  unfold build_public. intros H Hi Ho. rewrite Hi, Ho in H.
+  destruct (negb _) eqn:Earg; [discriminate|]. destruct outputs as [|o os]; [discriminate|].
+  apply negb_false_iff in Earg. rewrite forallb_forall in Earg.
+  apply bind_ok in H. destruct H as [args [_ H]]. apply bind_ok in H. destruct H as [b [Hb H]].
+  apply bind_ok in H. destruct H as [m' [Hm H]]. pose proof (to_model_struct _ _ Hm) as (_ & Hmg & _).
+  destruct (mmain m') as [gi body go_] eqn:Eg. destruct (forallb _ gi); [|discriminate]. inversion H; subst m'. rewrite Eg.
+  unfold build_main in Hb. destruct (S (List.length (graphs p))) as [|ff] eqn:EF; [discriminate|]. cbn [build_main_gen] in Hb.
+  apply bind_ok in Hb. destruct Hb as [d [_ Hb]]. apply bind_ok in Hb. destruct Hb as [[[[mg s] rq] fs] [Hc Hb]].
+  inversion Hb; subst b. cbn [b_graph] in Hmg. subst mg.
+  eapply compile_io_names in Hc; [|intros v x n Hl; discriminate Hl]. destruct Hc as [_ Hro].
+  cbn [with_main getg graphs nth gres] in Hro.
+  apply (names_from_seqn (o :: os) go_ 0). eapply Forall2_weaken; [|exact Hro]. intros k x Hx i kv -> Hn. cbn [Nat.add] in *.
+  apply Hx. unfold var_name. fold (user_names inputs).
+  rewrite (lookup_app_none var_eqb).
+  - pose proof (lookup_outmap 0 (o :: os) 0 i kv Hn) as Hl. cbn [Nat.add] in Hl. rewrite Hl. reflexivity.
+  - apply (lookup_notin_none var_eqb var_eqb_spec). intros Hc. apply user_names_keys in Hc. apply in_map_iff in Hc. destruct Hc as [kv' [E Hk]].
+    specialize (Earg kv' Hk). rewrite E in Earg. cbn in Earg. discriminate.
+Qed.
+
+(* ---------- names AND types, without any premise ---------- *)
+Definition io_entry (p : prog) (un : names) (v : var) (x : String.string * String.string) : Prop :=
+  (forall n, var_name p un v = Some n -> fst x = n) /\
+  exists t, vty p v = Some t /\ snd x = tshow t /\ tconcrete t = true.
+
+Theorem compile_io_main p un args_of own_of fbuild fuel s g prefix ai ms ro s' rq fs :
+  compile p un args_of own_of fbuild fuel s g prefix (Some true) = inl (MGraph ai ms ro, s', rq, fs) -> BoundRight p un s ->
+  Forall2 (io_entry p un) (args_of g) ai /\
+  Forall2 (io_entry p un) (map (V (NIntro g)) (seqn 0 (List.length (gres (getg p g))))) ro.
+Proof.
+  intros H Hs. pose proof (compile_bound _ _ _ _ _ _ _ _ _ _ _ _ _ _ H Hs) as Hb.
+  destruct fuel as [|f]; [discriminate|]. cbn [Build.compile] in H.
+  apply bind_ok in H. destruct H as [s1 [_ H]]. apply bind_ok in H. destruct H as [[[[[ms0 s3] rq3] fs0] sfs] [_ H]].
+  destruct (Nat.eqb (List.length (gres (getg p g))) 0); [discriminate H|].
+  apply bind_ok in H. destruct H as [ai0 [Hai H]]. apply bind_ok in H. destruct H as [ro0 [Hro H]]. inversion H; subst.
+  assert (Hvi : forall v x, value_info p (Some true) s' v = inl x -> io_entry p un v x).
+  { intros v x Hx. unfold value_info in Hx. apply bind_ok in Hx. destruct Hx as [nm [Hv Hx]]. unfold vlook in Hv.
+    destruct (lookup var_eqb v (vname s')) as [m|] eqn:El; [|discriminate]. inversion Hv; subst nm.
+    destruct (vty p v) as [t|] eqn:Ety; [|discriminate]. cbn [andb] in Hx. destruct (tconcrete t) eqn:Et; cbn [negb] in Hx; [|discriminate].
+    inversion Hx; subst x. split; [intros n Hn; exact (Hb v m n El Hn)|]. exists t. split; [exact Ety|]. split; [reflexivity|exact Et]. }
+  split; (eapply mapM_Forall2; [|eassumption]); intros a x _ Hx; now apply Hvi.
+Qed.
+
+Lemma Forall2_weaken_in {A B} (R R' : A -> B -> Prop) l r : (forall a b, In a l -> R a b -> R' a b) -> Forall2 R l r -> Forall2 R' l r.
+Proof. intros H HF. induction HF as [|a b l r Hab HF IH]; constructor; [apply H; [now left|exact Hab]|]. apply IH. intros a0 b0 Hin. apply H. now right. Qed.
+Lemma Forall2_map_l {A A' B} (f : A -> A') (R : A' -> B -> Prop) l r : Forall2 R (map f l) r -> Forall2 (fun a b => R (f a) b) l r.
+Proof. revert r. induction l as [|a t IH]; intros r H; inversion H; subst; constructor; auto. Qed.
+Lemma Forall2_seqn_list {X B} (l : list X) (R : nat -> B -> Prop) (R' : X -> B -> Prop) : forall ro j,
+  (forall i kv x, nth_error l i = Some kv -> R (j + i) x -> R' kv x) -> Forall2 R (seqn j (List.length l)) ro -> Forall2 R' l ro.
+Proof. induction l as [|a t IH]; intros ro j Hr H; cbn in *; [inversion H; constructor|].
+  inversion H as [|k x ks xs Hx Hxs]; subst. constructor.
+  - apply (Hr 0 a x); [reflexivity|]. now rewrite Nat.add_0_r.
+  - apply (IH xs (S j)); [|exact Hxs]. intros i kv y Hn Hy. apply (Hr (S i) kv y); [exact Hn|]. now replace (j + S i) with (S j + i) by lia. Qed.
+
+(* The public build, by construction: the graph inputs are the requested arguments (all, in order; with drop_unused_inputs a
+   sub-sequence), the graph outputs are the requested outputs in order; each entry carries the name it was requested under and the
+   (concrete) type of its Var. *)
+Theorem build_public_io p r m inputs outputs :
+  build_public p r = inl m -> all_vars (r_inputs r) = Some inputs -> all_vars (r_outputs r) = Some outputs ->
+  exists args, (r_drop r = false -> args = map snd inputs) /\ (forall a, In a args -> In a (map snd inputs)) /\
+    match mmain m with MGraph gi _ go_ =>
+      Forall2 (fun a x => (forall n, lookup var_eqb a (user_names inputs) = Some n -> fst x = n) /\
+                          exists t, vty p a = Some t /\ snd x = tshow t /\ tconcrete t = true) args gi /\
+      map fst go_ = map fst outputs /\
+      Forall2 (fun kv x => exists t, vty p (snd kv) = Some t /\ snd x = tshow t /\ tconcrete t = true) outputs go_
+    end.
+Proof.
+  intros H Hi Ho. pose proof (build_public_outputs _ _ _ _ _ H Hi Ho) as Hnames. revert H.
+  unfold build_public. intros H. rewrite Hi, Ho in H.
+  destruct (negb _) eqn:Earg; [discriminate|]. destruct outputs as [|o os]; [discriminate|].
+  apply negb_false_iff in Earg. rewrite forallb_forall in Earg.
+  apply bind_ok in H. destruct H as [args [Ha H]]. apply bind_ok in H. destruct H as [b [Hb H]].
+  apply bind_ok in H. destruct H as [m' [Hm H]]. pose proof (to_model_struct _ _ Hm) as (_ & Hmg & _).
+  destruct (mmain m') as [gi body go_] eqn:Eg. destruct (forallb _ gi); [|discriminate]. inversion H; subst m'. rewrite Eg in *.
+  exists args.
+  assert (Hsub : forall a, In a args -> In a (map snd inputs)).
+  { destruct (r_drop r).
+    - apply bind_ok in Ha. destruct Ha as [b1 [_ Ha]]. destruct (forallb _ (b_args b1)); [|discriminate]. inversion Ha; subst.
+      intros a Hin. apply filter_In in Hin. tauto.
+    - inversion Ha; subst. auto. }
+  split; [intros Hd; rewrite Hd in Ha; inversion Ha; reflexivity|]. split; [exact Hsub|].
+  unfold build_main in Hb. destruct (S (List.length (graphs p))) as [|ff] eqn:EF; [discriminate|]. cbn [build_main_gen] in Hb.
+  apply bind_ok in Hb. destruct Hb as [d [Hd Hb]]. apply bind_ok in Hb. destruct Hb as [[[[mg s] rq] fs] [Hc Hb]].
+  inversion Hb; subst b. cbn [b_graph] in Hmg. subst mg.
+  pose proof (discover_main_args _ _ _ _ args Hd eq_refl) as Hargs.
+  eapply compile_io_main in Hc; [|intros v x n Hl; discriminate Hl]. destruct Hc as [Hin Hout]. cbn beta in Hin. rewrite Hargs in Hin.
+  cbn [with_main getg graphs nth gres] in Hout.
+  split; [|split; [exact Hnames|]].
+  - eapply Forall2_weaken_in; [|exact Hin]. intros a x Hina [Hn (t & Ht & Hs & Hcn)]. split.
+    + intros n Hl. apply Hn. unfold var_name. fold (user_names inputs). now rewrite (lookup_app_some var_eqb _ _ _ _ Hl).
+    + exists t. split; [|auto]. apply Hsub in Hina. apply in_map_iff in Hina. destruct Hina as [kv [E Hk]]. specialize (Earg kv Hk). rewrite E in Earg.
+      destruct a as [[k|g0] j]; [exact Ht|cbn in Earg; discriminate].
+  - apply Forall2_map_l in Hout. eapply (Forall2_seqn_list (o :: os) _ _ go_ 0); [|exact Hout].
+    intros i kv x Hn [_ (t & Ht & Hs & Hcn)]. exists t. split; [|auto]. cbn [Nat.add] in Ht.
+    unfold vty in Ht. cbn [with_main getg graphs nth gres] in Ht. rewrite Hn in Ht. destruct kv as [k [[n|g0] j]]; [exact Ht|discriminate].
+Qed.
